@@ -2,7 +2,7 @@
 import os
 
 from .core import Ctx
-from .rules import k1, reclaim, schemes, seqlock, vyukov, harris, queues, deque, leftright, markedptr, progress, typestate
+from .rules import k1, reclaim, schemes, seqlock, vyukov, harris, queues, deque, leftright, markedptr, progress, typestate, origin
 
 ALL_FILES = [".hpp"]
 RECL = ["reclamation/"]
@@ -91,6 +91,7 @@ def C01(ctx):
     ctx.floor("K4.reclaim-after-unlink", 20)
     harris.guard_deref_after_release(ctx, [".hpp"])
     ctx.floor("GUARD.deref-after-release", 300)
+    origin.rules(ctx, [".hpp"], floor_guarded=1500)
     scheme_rules(ctx)
     typestate.rules(ctx)
     typestate.emptiness_predicates(ctx)
@@ -130,6 +131,7 @@ def C04(ctx):
     queues.swing_cas_expected(ctx)
     harris.use_after_move(ctx, FILES["C04"])
     harris.guard_deref_after_release(ctx, FILES["C04"])
+    origin.rules(ctx, FILES["C04"], floor_guarded=150)
     return ("Decides structural necessary conditions of the three unbounded FIFO queues: link-before-swing and head/tail hand-over rules, ticket "
             "bounds and slot invalidation of the Ramalhete queue in every configuration, sticky finalisation flag of the SCQ (finite evaluation), "
             "construct-before-publish with a finalizable enqueue, reclaim after unlink, memory orders.", "linearizability (order, uniqueness, emptiness verdicts)")
@@ -153,6 +155,7 @@ def C06(ctx):
     queues.kfifo(ctx)
     harris.use_after_move(ctx, FILES["C06"])
     harris.guard_deref_after_release(ctx, FILES["C06"])
+    origin.rules(ctx, FILES["C06"], floor_guarded=30)
     return ("Decides: ABA tag discipline of every tagged CAS, release-after-commit in push, value only after winning the slot CAS, deleted-before-"
             "advance in the unbounded variant, index field fit of the bounded variant (constructor check surviving NDEBUG), memory orders.",
             "the k-relaxation bound and emptiness verdicts")
@@ -184,6 +187,7 @@ def C08(ctx):
     harris.iterator_rules(ctx)
     harris.use_after_move(ctx, FILES["C08"])
     harris.guard_deref_after_release(ctx, FILES["C08"])
+    origin.rules(ctx, FILES["C08"], floor_guarded=300)
     return ("Decides structural necessary conditions of the Harris-Michael set/map: total order of the search predicate (exhaustive), mark-then-"
             "unlink erase protocol with per-attempt validation of the expected value, insert protocol (next before link, same expected, searched "
             "key is the inserted key, no use of a moved-from key), bucket selection agreement, reclaim after unlink, memory orders.",
@@ -201,6 +205,7 @@ def C09(ctx):
     harris.erase_protocol(ctx)
     harris.use_after_move(ctx, FILES["C09"])
     harris.guard_deref_after_release(ctx, FILES["C09"])
+    origin.rules(ctx, FILES["C09"], floor_guarded=300)
     return ("Decides: the re-scan predicate is a total order (exhaustive finite evaluation); iterators obtain successors through acquire_if_equal, "
             "keep prev paired with the save guard, copy the key before re-finding; erase(iterator) guards the successor before unlinking.",
             "weak consistency of traversals relative to the update history")
@@ -222,6 +227,7 @@ def C10(ctx):
     vyukov.cursor_prev_pairing(ctx)
     vyukov.cache_coherence(ctx)
     harris.guard_deref_after_release(ctx, FILES["C10"])
+    origin.rules(ctx, FILES["C10"], floor_guarded=20)
     return ("Decides structural necessary conditions of the vyukov_hash_map protocol: reclaim only after a successful extraction; every return "
             "of the lock-free reader passes a version re-validation after its last shared read and the delete-marker test; writer side marker/"
             "key/value/version order and marker value; bucket lock pairing; grow ordering and index mapping; memory orders.",
